@@ -518,6 +518,8 @@ def main(argv=None):
     if os.environ.get('PYTHONHASHSEED') != '0':
         env = dict(os.environ, PYTHONHASHSEED='0', PYTHONDONTWRITEBYTECODE='1')
         os.execve(sys.executable, [sys.executable, '-m', 'vp'] + argv, env)
+    import warnings
+    warnings.filterwarnings('ignore')
     import argparse
     ap = argparse.ArgumentParser()
     ap.add_argument('prop')
